@@ -51,3 +51,18 @@ package conntrack
 //@ modifies wlen(c.Conn), wdata, wrFailed(c.Conn), c.o.tx.v
 //@ ensures 0 <= n && n <= len(p) && wlen(c.Conn) == old(wlen(c.Conn)) + n
 //@ ensures c.o.tx.v == (old(c.o.tx.v) + n) % 18446744073709551616 && c.o.rx.v == old(c.o.rx.v)
+
+// ReadFrom (the path io.Copy takes into a tracked TCP connection - every
+// tunnel): whatever was written is counted as sent, also when the copy ended
+// with an error; the inner result is returned unchanged.
+//@ func (io.ReaderFrom).ReadFrom as (w io.ReaderFrom, r io.Reader) (n int64, err error)
+//@ trusted
+//@ modifies *
+//@ preserves conn.* Observer.*
+//@ ensures n >= 0
+//@ func (*conn).ReadFrom
+//@ property C13
+//@ requires c != nil && c.Conn != nil && (c.Conn is *net.TCPConn)
+//@ modifies *, c.o.tx.v
+//@ preserves conn.Conn
+//@ ensures n >= 0 && c.o.tx.v == (old(c.o.tx.v) + n) % 18446744073709551616 && c.o.rx.v == old(c.o.rx.v)
